@@ -6,6 +6,7 @@ package simhost
 import (
 	"fmt"
 	"os"
+	"runtime"
 	"strconv"
 	"strings"
 	"time"
@@ -491,6 +492,7 @@ func newSim(ctx *runner.Ctx, tweak func(c *Cfg)) *Sim {
 	}
 	s.orc = newOracles(s)
 	s.ex.YieldFilter = s.yieldFilter
+	s.ex.ParkHook = parkHook
 	transport.VerifHooks.SendBatch = s.hookSendBatch
 	transport.VerifHooks.Async = s.hookAsync
 	s.net = newNet(s, s.cfg.Hosts)
@@ -1025,6 +1027,26 @@ func (s *Sim) FSOp(d *simfs.Disk, op simfs.Op, path string, size int, index int6
 		s.ex.Yield("fs."+op.String(), uint64(index))
 	}
 	return nil, 0
+}
+
+// parkHook marks tasks that park while holding the process wide finalizeLock
+// of internal/server (SSEnv.FinalizeSnapshot): they must be unwound when their
+// host dies, or no other host could ever finalize a snapshot again.
+func parkHook(t *coro.Task) {
+	var pcs [48]uintptr
+	n := runtime.Callers(3, pcs[:])
+	frames := runtime.CallersFrames(pcs[:n])
+	t.Unwind = false
+	for {
+		f, more := frames.Next()
+		if strings.HasSuffix(f.Function, "(*SSEnv).FinalizeSnapshot") {
+			t.Unwind = true
+			return
+		}
+		if !more {
+			return
+		}
+	}
 }
 
 func (s *Sim) yieldFilter(t *coro.Task, point string, arg uint64) bool {
